@@ -66,6 +66,9 @@ structure Params where
   max : Nat
   sticky : Bool
   expAt : Nat := 100
+  /-- Lifetime of the claim key, in stalls: the claim lapses at the `lease`-th stall after it was taken
+  (`codeClaimTTL` divided by the length of one stall, rounded up; 30 s / 3.5 s → 9). -/
+  lease : Nat := 9
 deriving DecidableEq, Repr
 
 structure Store where
@@ -75,6 +78,7 @@ structure Store where
   sticky : Bool := false
   code : TunnelConnectionCode := {}
   claim : Option Nat := none            -- holder of the claim key
+  claimAge : Nat := 0                   -- stalls since the claim key was written (its TTL runs in wall-clock time)
   maps : List Mapping := []             -- port-mapping records
   nextId : Nat := 0
   -- ghost state (never read by the steps)
@@ -136,7 +140,7 @@ def claimStep (st : Store) (i : Nat) (t : Thread) : Store × Thread :=
   if t.fault = .claim then (st, { t with pc := .done, res := some .storage })
   else match st.claim with
     | some _ => (st, { t with pc := .done, res := some .busy })
-    | none => ({ st with claim := some i }, { t with pc := .claimed })
+    | none => ({ st with claim := some i, claimAge := 0 }, { t with pc := .claimed })
 
 /-- GetByCode + CanBeActivatedBy + address parsing (activation). -/
 def getStepA (v : Variant) (st : Store) (t : Thread) : Store × Thread :=
@@ -232,6 +236,8 @@ inductive Ev where
   | create            -- CreateConnectionCode stores the code (a second one concerns another code: no effect)
   | expire            -- the clock passes ActivationExpiresAt
   | th (i : Nat)      -- thread i runs its next phase
+  | stall             -- wall-clock time passes while every call is stuck (slow storage, GC pause, queueing):
+                      -- nothing happens except that the claim key ages; at its `lease`-th stall it is gone
 deriving DecidableEq, Repr
 
 structure Config where
@@ -250,6 +256,17 @@ def step (v : Variant) (p : Params) (c : Config) : Ev → Config
     match c.ths[i]? with
     | none => c
     | some t => { st := (tstep v p c.st i t).1, ths := c.ths.set i (tstep v p c.st i t).2 }
+  | .stall =>
+    match c.st.claim with
+    | none => c
+    | some _ =>
+      if p.lease ≤ c.st.claimAge + 1 then { c with st := { c.st with claim := none, claimAge := 0 } }
+      else { c with st := { c.st with claimAge := c.st.claimAge + 1 } }
+
+/-- The claim outlives the history: the stalls still to come, added to the age of the current claim, stay below the
+lease.  (The code neither renews the claim nor checks it again before it writes; its correctness rests on
+`codeClaimTTL` being longer than any call can be stuck.) -/
+def leaseOk (p : Params) (c : Config) (evs : List Ev) : Bool := decide (c.st.claimAge + evs.count .stall < p.lease)
 
 def run (v : Variant) (p : Params) (c : Config) (evs : List Ev) : Config := evs.foldl (step v p) c
 
